@@ -816,6 +816,18 @@ def roots_of(t, candidates):
     return {c for c in candidates if any(x == c for x in subterms(t))}
 
 
+
+def same_pixels(r, d):
+    # the residuals are taken on the data the result reports, or on the same
+    # pixels flattened (flat() keeps values, coordinates and metadata)
+    if r is None or d is None:
+        return False
+    if r == d or r == ('call', MD + 'flat', (d,), ()):
+        return True
+    if r[0] == 'ite' and d[0] == 'ite' and r[1] == d[1]:
+        return same_pixels(r[2], d[2]) and same_pixels(r[3], d[3])
+    return False
+
 def assembly(check, prog):
     MODEL = INF + 'model.Model'
     for q, opaque in ((N + '.fit', [N + '.minimize', MD + 'make_subset_data']),
@@ -907,8 +919,9 @@ def assembly(check, prog):
                 nz[1][2] == '_find_noise' and nz[1][1] == model_t
             if okn:
                 bn = bind(prog, MODEL + '._find_noise', nz[2], nz[3])
-                okn = bn.get('pars') == pv and bn.get('schema') == data_t
-            ok = okc and okn and b.get('pars') == pv and b.get('data') == data_t
+                okn = bn.get('pars') == pv and same_pixels(bn.get('schema'), data_t)
+            ok = okc and okn and b.get('pars') == pv and \
+                same_pixels(b.get('data'), data_t)
             detail = '_residuals(%s)' % ', '.join('%s=%s' % (k, show(x)[:50])
                                                   for k, x in b.items())
         check.require(ok, 'L7-residual-slots', where,
@@ -1238,7 +1251,7 @@ def wiring(check, prog):
         ok = b.get('parameters') == ('attr', model, '_parameters') and len(fn) == 1
         if ok:
             bn = bind(prog, MODEL + '._find_noise', fn[0][2], fn[0][3])
-            ok = fn[0][1][1] == model and bn.get('schema') == dterm and \
+            ok = fn[0][1][1] == model and same_pixels(bn.get('schema'), dterm) and \
                 bn.get('pars') is not None and bn['pars'][0] == 'idx' and \
                 bn['pars'][2] == num(0) and bool(calls_in(bn['pars'], 'minimize'))
     check.require(ok, 'L7-call-slots', 'LeastSquaresScipyStrategy.fit errors',
